@@ -10,6 +10,7 @@ import glob
 import hashlib
 import json
 import os
+import re
 import subprocess
 import sys
 import time
@@ -152,6 +153,16 @@ def finish(pid, tier, level, results, t0, assumptions, rule, extra_cov=None, see
            "rule": rule, "samples": [], "exhaustive": True, "scenarios": []}
     viols = []
     for r in results:
+        if r.get("adjunct"):
+            # free-running companion runs (race detector): listed, but neither counted as explored
+            # executions nor allowed to influence the exhaustiveness statement of the deciding search
+            cov.setdefault("adjunct_runs", []).append({"name": r.get("name"), "kind": r["adjunct"], "runs": r.get("evaluations", 0), "note": r.get("cap", ""),
+                                                        "reports": r.get("viol_counts", {}), "wall_s": round(r.get("wall_s", 0), 2)})
+            for v in r.get("violations") or []:
+                v = dict(v)
+                v["scenario"] = r.get("name")
+                viols.append(v)
+            continue
         cov["evaluations"] += r.get("evaluations", 0)
         cov["distinct_nontrivial"] += r.get("nontrivial", 0)
         cov["states"] += r.get("states", 0)
@@ -223,3 +234,48 @@ def finish(pid, tier, level, results, t0, assumptions, rule, extra_cov=None, see
         pid, tier, cov["evaluations"], cov.get("states", "-"), cov.get("transitions", "-"), cov["exhaustive"], len(new), len(seen_known), time.time() - t0))
     sys.stdout.flush()
     sys.exit(rc)
+
+
+def race_reports(logprefix):
+    """Parse Go race detector logs (GORACE log_path=<logprefix>): returns {key: (count, first report text)}.
+    key = sorted top frames (function + file:line) of the conflicting accesses."""
+    import glob
+    import re
+    out = {}
+    for f in glob.glob(logprefix + "*"):
+        for b in open(f, errors="replace").read().split("=================="):
+            if "DATA RACE" not in b:
+                continue
+            m = re.findall(r"(?:Write|Read|Previous write|Previous read|Atomic \w+|Previous atomic \w+) at .*? by .*?:\n  (\S+)\(\)\n\s+(\S+)", b)
+            k = " | ".join(sorted("%s %s" % (fn.split("/")[-1], loc.split("/")[-1].split(" ")[0]) for fn, loc in m))
+            c, t = out.get(k, (0, b.strip()))
+            out[k] = (c + 1, t)
+    return out
+
+
+def race_pass(cid, injects, pkg, scenarios, budget=60, keyfn=None, rewrites=()):
+    """Build pkg with -race (nothing rewritten unless asked), run one free-running worker per scenario with the
+    race detector logging to .work, and turn every distinct report into a violation of an adjunct record."""
+    import glob
+    w = build(cid, list(rewrites), injects, pkg, race=True)
+    d = os.path.dirname(w)
+    out = []
+    for sc in scenarios:
+        lp = os.path.join(d, "racelog-" + re.sub(r"[^A-Za-z0-9]", "_", sc))
+        for f in glob.glob(lp + "*"):
+            os.remove(f)
+        r = run_worker(w, ["-scenario", sc, "-budget", str(budget)], budget + 300,
+                       env={"GORACE": "halt_on_error=0 exitcode=0 log_path=" + lp, "GOMAXPROCS": "8"})
+        if "error" in r:
+            raise HarnessError(r["error"])
+        rec = r["results"][0]
+        rec["adjunct"] = "go race detector, free-running"
+        rec.setdefault("viol_counts", {})
+        rec.setdefault("violations", [])
+        for k, (c, text) in sorted(race_reports(lp).items()):
+            key = keyfn(sc, k) if keyfn else "data-race:" + k
+            rec["viol_counts"][key] = c
+            rec["violations"].append({"key": key, "what": "race detector report (%d x) in %s: %s" % (c, sc, k),
+                                      "replay": {"scenario": sc, "kind": "race", "report": text[:6000]}})
+        out.append(rec)
+    return out
